@@ -1,12 +1,588 @@
-//! C06: harness not built yet.
+//! C06: Interaction-Model path expansion is mediated by the access check.
+//!
+//! One case = an access-control configuration (the ops of C05: `fab`, `rmfab`, `acl`, `grp`, `gaux`)
+//! followed by node metadata and requests run through the real `expand_read` / `expand_write` /
+//! `expand_invoke` (the public entry points used by `im.rs`) with real request TLVs.
+//!
+//!   node <spec>                                        => ok <endpoints>
+//!      spec: endpoints joined by `;`, each `id@devtypes@clusters`, devtypes `-` or `d+d`,
+//!            clusters joined by `|`, each `id^featuremap^attrs^cmds`, attrs `-` or `id.access.array,..`,
+//!            cmds `-` or `id.access,..`.  A leaf is enabled iff bit (id % 32) of the feature map is set
+//!            (that is the `with_attrs` / `with_cmds` predicate the harness installs).
+//!   x <r|w|i> <fab> <p|c|g|n> <aux> <id> <cats|-> <timed> <excluded|-> <paths>
+//!                                                      => outputs joined by ` | `
+//!      excluded: triples `ep.cl.leaf,..` rejected by the caller's filter (reads only)
+//!      paths: `ep/cl/leaf;..` with `*` for a wildcard component
+//!      output element: `ok ep cl leaf w<0|1> a<0|1>` or `st <path> <Status>`; `-` for no output
+use crate::proto::{parse_cases, Case, Out};
+use crate::rng::Rng;
 use crate::Args;
 
-pub fn gen(_a: &Args) -> String {
-    eprintln!("C06: harness not built yet");
-    std::process::exit(2);
+use super::c05;
+
+use rs_matter::acl::{Accessor, AccessorSubjects};
+use rs_matter::dm::{Access, Attribute, Cluster, Command, DeviceType, Endpoint, Node, Quality};
+use rs_matter::im::{expand_invoke, expand_read, expand_write, IMStatusCode, InvReq, ReadReq, ReportDataReq, WriteReq};
+use rs_matter::tlv::TLVElement;
+use rs_matter::Matter;
+
+fn leak<T>(v: Vec<T>) -> &'static [T] {
+    Box::leak(v.into_boxed_slice())
 }
 
-pub fn replay(_a: &Args) -> String {
-    eprintln!("C06: harness not built yet");
-    std::process::exit(2);
+fn with_leaf_attr(a: &Attribute, _rev: u16, fm: u32) -> bool {
+    fm & (1u32 << (a.id % 32)) != 0
+}
+fn with_leaf_cmd(c: &Command, _rev: u16, fm: u32) -> bool {
+    fm & (1u32 << (c.id % 32)) != 0
+}
+fn with_no_event(_e: &rs_matter::dm::Event, _rev: u16, _fm: u32) -> bool {
+    false
+}
+
+fn parse_node(spec: &str) -> Option<&'static Node<'static>> {
+    let mut eps: Vec<Endpoint<'static>> = Vec::new();
+    if spec != "-" {
+        for e in spec.split(';') {
+            let mut it = e.split('@');
+            let id: u16 = it.next()?.parse().ok()?;
+            let dts = it.next()?;
+            let cls = it.next()?;
+            let dts: Vec<DeviceType> = if dts == "-" { Vec::new() } else { dts.split('+').map(|d| DeviceType { dtype: d.parse().unwrap_or(0), drev: 1 }).collect() };
+            let mut clusters: Vec<Cluster<'static>> = Vec::new();
+            if cls != "-" {
+                for c in cls.split('|') {
+                    let mut ci = c.split('^');
+                    let cid: u32 = ci.next()?.parse().ok()?;
+                    let fm: u32 = ci.next()?.parse().ok()?;
+                    let attrs = ci.next()?;
+                    let cmds = ci.next()?;
+                    let mut av: Vec<Attribute> = Vec::new();
+                    if attrs != "-" {
+                        for a in attrs.split(',') {
+                            let mut ai = a.split('.');
+                            let aid: u32 = ai.next()?.parse().ok()?;
+                            let acc: u16 = ai.next()?.parse().ok()?;
+                            let arr = ai.next()? == "1";
+                            av.push(Attribute::new(aid, Access::from_bits_retain(acc), if arr { Quality::ARRAY } else { Quality::NONE }));
+                        }
+                    }
+                    let mut cv: Vec<Command> = Vec::new();
+                    if cmds != "-" {
+                        for a in cmds.split(',') {
+                            let mut ai = a.split('.');
+                            let aid: u32 = ai.next()?.parse().ok()?;
+                            let acc: u16 = ai.next()?.parse().ok()?;
+                            cv.push(Command::new(aid, None, Access::from_bits_retain(acc)));
+                        }
+                    }
+                    clusters.push(Cluster::new(cid, 1, fm, leak(av), leak(cv), &[], with_leaf_attr, with_leaf_cmd, with_no_event));
+                }
+            }
+            eps.push(Endpoint::new(id, leak(dts), leak(clusters)));
+        }
+    }
+    Some(Box::leak(Box::new(Node::new(leak(eps)))))
+}
+
+// ------------------------------------------------------------------ request TLVs (hand-encoded)
+fn put_path(b: &mut Vec<u8>, tags: [u8; 3], p: &(Option<u16>, Option<u32>, Option<u32>)) {
+    if let Some(e) = p.0 {
+        b.extend_from_slice(&[0x25, tags[0]]);
+        b.extend_from_slice(&e.to_le_bytes());
+    }
+    if let Some(c) = p.1 {
+        b.extend_from_slice(&[0x26, tags[1]]);
+        b.extend_from_slice(&c.to_le_bytes());
+    }
+    if let Some(l) = p.2 {
+        b.extend_from_slice(&[0x26, tags[2]]);
+        b.extend_from_slice(&l.to_le_bytes());
+    }
+}
+
+type P = (Option<u16>, Option<u32>, Option<u32>);
+
+fn read_req(paths: &[P]) -> Vec<u8> {
+    let mut b = vec![0x15, 0x36, 0x00];
+    for p in paths {
+        b.push(0x17);
+        put_path(&mut b, [2, 3, 4], p);
+        b.push(0x18);
+    }
+    b.push(0x18);
+    b.extend_from_slice(&[0x29, 0x03]); // fabric filtered = true
+    b.push(0x18);
+    b
+}
+
+fn write_req(paths: &[P], timed: bool) -> Vec<u8> {
+    let mut b = vec![0x15, 0x28, 0x00, if timed { 0x29 } else { 0x28 }, 0x01, 0x36, 0x02];
+    for p in paths {
+        b.push(0x15);
+        b.extend_from_slice(&[0x37, 0x01]);
+        put_path(&mut b, [2, 3, 4], p);
+        b.push(0x18);
+        b.extend_from_slice(&[0x24, 0x02, 0x01]); // data: u8 1
+        b.push(0x18);
+    }
+    b.push(0x18);
+    b.push(0x18);
+    b
+}
+
+fn inv_req(paths: &[P], timed: bool) -> Vec<u8> {
+    let mut b = vec![0x15, 0x28, 0x00, if timed { 0x29 } else { 0x28 }, 0x01, 0x36, 0x02];
+    for p in paths {
+        b.push(0x15);
+        b.extend_from_slice(&[0x37, 0x00]);
+        put_path(&mut b, [0, 1, 2], p);
+        b.push(0x18);
+        b.extend_from_slice(&[0x35, 0x01, 0x18]); // data: empty struct
+        b.push(0x18);
+    }
+    b.push(0x18);
+    b.push(0x18);
+    b
+}
+
+fn fmt_o<T: ToString>(o: Option<T>) -> String {
+    o.map(|x| x.to_string()).unwrap_or_else(|| "*".into())
+}
+
+fn status_name(s: IMStatusCode) -> String {
+    format!("{:?}", s)
+}
+
+const STEP_CAP: usize = 20000;
+
+fn run_x(matter: &Matter<'_>, node: &'static Node<'static>, w: &[&str], out: &mut Out) -> String {
+    let kind = w[1];
+    let fab: u8 = w[2].parse().unwrap_or(0);
+    let mode = c05::mode_of(w[3]);
+    let aux = w[4] == "1";
+    let mut subj = AccessorSubjects::new(w[5].parse().unwrap_or(0));
+    if w[6] != "-" {
+        for c in w[6].split(',') {
+            let _ = subj.add_catid(c.parse().unwrap_or(0));
+        }
+    }
+    let timed = w[7] == "1";
+    let excluded: Vec<(u16, u32, u32)> = if w[8] == "-" {
+        Vec::new()
+    } else {
+        w[8].split(',')
+            .filter_map(|t| {
+                let mut it = t.split('.');
+                Some((it.next()?.parse().ok()?, it.next()?.parse().ok()?, it.next()?.parse().ok()?))
+            })
+            .collect()
+    };
+    let paths: Vec<P> = w[9]
+        .split(';')
+        .filter(|s| !s.is_empty() && *s != "-")
+        .map(|p| {
+            let mut it = p.split('/');
+            (
+                c05::opt_num(it.next().unwrap_or("*")),
+                c05::opt_num(it.next().unwrap_or("*")),
+                c05::opt_num(it.next().unwrap_or("*")),
+            )
+        })
+        .collect();
+    let accessor = Accessor::new(fab, aux, subj, mode, matter);
+    let mut outs: Vec<String> = Vec::new();
+    let r = std::panic::catch_unwind(std::panic::AssertUnwindSafe(|| {
+        let mut outs: Vec<String> = Vec::new();
+        match kind {
+            "r" => {
+                let bytes = read_req(&paths);
+                let rr = ReadReq::new(TLVElement::new(&bytes));
+                let req = ReportDataReq::Read(&rr);
+                let it = match expand_read(node, &req, &accessor, |e, c, l| !excluded.contains(&(e, c, l))) {
+                    Ok(it) => it,
+                    Err(_) => return vec!["err".to_string()],
+                };
+                for (n, item) in it.enumerate() {
+                    if n >= STEP_CAP {
+                        outs.push("HANG".into());
+                        break;
+                    }
+                    outs.push(match item {
+                        Ok(Ok(a)) => format!("ok {} {} {} w{} a{}", a.endpoint_id, a.cluster_id, a.attr_id, a.wildcard as u8, a.array as u8),
+                        Ok(Err(s)) => format!("st {}/{}/{} {}", fmt_o(s.path.endpoint), fmt_o(s.path.cluster), fmt_o(s.path.attr), status_name(s.status.status)),
+                        Err(_) => "err".into(),
+                    });
+                }
+            }
+            "w" => {
+                let bytes = write_req(&paths, timed);
+                let req = WriteReq::new(TLVElement::new(&bytes));
+                let it = match expand_write(node, &req, &accessor) {
+                    Ok(it) => it,
+                    Err(_) => return vec!["err".to_string()],
+                };
+                for (n, item) in it.enumerate() {
+                    if n >= STEP_CAP {
+                        outs.push("HANG".into());
+                        break;
+                    }
+                    outs.push(match item {
+                        Ok(Ok((a, _))) => format!("ok {} {} {} w{} a{}", a.endpoint_id, a.cluster_id, a.attr_id, a.wildcard as u8, a.array as u8),
+                        Ok(Err(s)) => format!("st {}/{}/{} {}", fmt_o(s.path.endpoint), fmt_o(s.path.cluster), fmt_o(s.path.attr), status_name(s.status.status)),
+                        Err(_) => "err".into(),
+                    });
+                }
+            }
+            _ => {
+                let bytes = inv_req(&paths, timed);
+                let req = InvReq::new(TLVElement::new(&bytes));
+                let it = match expand_invoke(node, &req, &accessor) {
+                    Ok(it) => it,
+                    Err(_) => return vec!["err".to_string()],
+                };
+                for (n, item) in it.enumerate() {
+                    if n >= STEP_CAP {
+                        outs.push("HANG".into());
+                        break;
+                    }
+                    outs.push(match item {
+                        // `CmdDetails` carries no wildcard information from the path (always `false`): not compared
+                        Ok(Ok((c, _))) => format!("ok {} {} {} w- a0", c.endpoint_id, c.cluster_id, c.cmd_id),
+                        Ok(Err(s)) => format!("st {}/{}/{} {}", fmt_o(s.path.endpoint), fmt_o(s.path.cluster), fmt_o(s.path.cmd), status_name(s.status.status)),
+                        Err(_) => "err".into(),
+                    });
+                }
+            }
+        }
+        outs
+    }));
+    match r {
+        Ok(o) => outs = o,
+        Err(_) => outs.push("panic".into()),
+    }
+    for o in &outs {
+        if o.starts_with("ok") {
+            out.stat(&format!("out_{}_item", kind), 1);
+        } else if o.starts_with("st") {
+            out.stat(&format!("out_{}_status_{}", kind, o.rsplit(' ').next().unwrap_or("?")), 1);
+        } else {
+            out.stat(&format!("out_{}_{}", kind, o), 1);
+        }
+    }
+    if outs.is_empty() {
+        out.stat(&format!("out_{}_nothing", kind), 1);
+        "-".into()
+    } else {
+        outs.join(" | ")
+    }
+}
+
+fn run_case(matter: &Matter<'_>, out: &mut Out, case: &Case) {
+    c05::reset(matter);
+    out.case(case.id, &case.kind);
+    let mut node: &'static Node<'static> = Box::leak(Box::new(Node::new(&[])));
+    let mut kinds = std::collections::BTreeSet::new();
+    for op in &case.ops {
+        let w: Vec<&str> = op.split_whitespace().collect();
+        match w.first().copied() {
+            Some("node") if w.len() == 2 => match parse_node(w[1]) {
+                Some(n) => {
+                    node = n;
+                    out.op(op, &format!("ok {}", n.endpoints.len()));
+                }
+                None => out.op(op, "badnode"),
+            },
+            Some("x") if w.len() == 10 => {
+                let o = run_x(matter, node, &w, out);
+                if o.contains("ok ") {
+                    kinds.insert("item");
+                }
+                if o.contains("Unsupported") || o.contains("NeedsTimed") {
+                    kinds.insert("status");
+                }
+                out.op(op, &o);
+            }
+            _ => {
+                let (o, _) = c05::run_op(matter, op, out);
+                out.op(op, &o);
+            }
+        }
+    }
+    if kinds.len() == 2 {
+        out.buf.push_str("#nt\n");
+    }
+}
+
+// ---------------------------------------------------------------------------------- generator
+const ENDPOINTS: [u16; 5] = [0, 1, 2, 3, 7];
+const CLUSTERS: [u32; 4] = [6, 8, 29, 31];
+const DEV_TYPES: [u32; 3] = [22, 256, 257];
+const GROUP_IDS: [u64; 3] = [1, 2, 3];
+
+struct GLeaf { id: u32, access: u16, array: bool }
+struct GCluster { id: u32, fm: u32, attrs: Vec<GLeaf>, cmds: Vec<GLeaf> }
+struct GEndpoint { id: u16, dts: Vec<u32>, clusters: Vec<GCluster> }
+
+fn attr_access_pool() -> Vec<u16> {
+    vec![
+        Access::RV.bits(), Access::RV.bits(), Access::RA.bits(), Access::RWVA.bits(), Access::RWVM.bits(), Access::RWFA.bits(),
+        Access::RWFVM.bits(), (Access::RWVM | Access::TIMED_ONLY).bits(), (Access::RWVA | Access::TIMED_ONLY).bits(),
+        Access::WO.bits(), (Access::READ | Access::NEED_OPERATE).bits(), Access::RF.bits(),
+    ]
+}
+fn cmd_access_pool() -> Vec<u16> {
+    vec![
+        Access::WO.bits(), Access::WO.bits(), Access::WM.bits(), Access::WA.bits(), (Access::WO | Access::TIMED_ONLY).bits(),
+        (Access::WA | Access::FAB_SCOPED).bits(), (Access::WO | Access::FAB_SCOPED).bits(), (Access::WM | Access::TIMED_ONLY | Access::FAB_SCOPED).bits(),
+        Access::RV.bits(),
+    ]
+}
+
+fn gen_node(r: &mut Rng, out: &mut Out, wf: bool) -> Vec<GEndpoint> {
+    let mut eps: Vec<GEndpoint> = Vec::new();
+    let ne = *r.pick(&[0usize, 1, 2, 2, 3, 3, 4]);
+    let mut ids: Vec<u16> = ENDPOINTS.to_vec();
+    // choose `ne` ids, sorted
+    while ids.len() > ne {
+        let k = r.below(ids.len() as u64) as usize;
+        ids.remove(k);
+    }
+    let ap = attr_access_pool();
+    let cp = cmd_access_pool();
+    for id in ids {
+        let mut dts = Vec::new();
+        if r.chance(1, 2) { dts.push(*r.pick(&DEV_TYPES)); }
+        if r.chance(1, 5) { dts.push(*r.pick(&DEV_TYPES)); }
+        let nc = *r.pick(&[0usize, 1, 2, 2, 3]);
+        let mut cids: Vec<u32> = CLUSTERS.to_vec();
+        while cids.len() > nc {
+            let k = r.below(cids.len() as u64) as usize;
+            cids.remove(k);
+        }
+        let mut clusters = Vec::new();
+        for cid in cids {
+            let na = *r.pick(&[0usize, 1, 2, 3, 4]);
+            let ncm = *r.pick(&[0usize, 0, 1, 2, 3]);
+            let mut attrs: Vec<GLeaf> = (0..na as u32).map(|i| GLeaf { id: i, access: if r.chance(1, 8) { r.below(512) as u16 } else { *r.pick(&ap) }, array: r.chance(1, 4) }).collect();
+            let mut cmds: Vec<GLeaf> = (0..ncm as u32).map(|i| GLeaf { id: i, access: if r.chance(1, 8) { r.below(512) as u16 } else { *r.pick(&cp) }, array: false }).collect();
+            if !wf {
+                // duplicate ids (first-match semantics are compared model-vs-code only)
+                if !attrs.is_empty() && r.chance(1, 2) { let a = GLeaf { id: attrs[0].id, access: *r.pick(&ap), array: false }; attrs.push(a); }
+                if !cmds.is_empty() && r.chance(1, 2) { let a = GLeaf { id: cmds[0].id, access: *r.pick(&cp), array: false }; cmds.push(a); }
+            }
+            // feature map = enabled mask; mostly everything enabled
+            let fm: u32 = if r.chance(3, 4) { 0xFFFF_FFFF } else { r.next() as u32 | 1 };
+            out.stat("node_clusters", 1);
+            clusters.push(GCluster { id: cid, fm, attrs, cmds });
+        }
+        if !wf && !clusters.is_empty() && r.chance(1, 3) {
+            let c = GCluster { id: clusters[0].id, fm: 0xFFFF_FFFF, attrs: vec![GLeaf { id: 0, access: Access::RV.bits(), array: false }], cmds: vec![] };
+            clusters.push(c);
+        }
+        eps.push(GEndpoint { id, dts, clusters });
+    }
+    out.stat(&format!("node_endpoints_{}", eps.len()), 1);
+    eps
+}
+
+fn node_spec(eps: &[GEndpoint]) -> String {
+    if eps.is_empty() {
+        return "-".into();
+    }
+    eps.iter()
+        .map(|e| {
+            let dts = if e.dts.is_empty() { "-".to_string() } else { e.dts.iter().map(|d| d.to_string()).collect::<Vec<_>>().join("+") };
+            let cls = if e.clusters.is_empty() {
+                "-".to_string()
+            } else {
+                e.clusters
+                    .iter()
+                    .map(|c| {
+                        let a = if c.attrs.is_empty() { "-".to_string() } else { c.attrs.iter().map(|l| format!("{}.{}.{}", l.id, l.access, l.array as u8)).collect::<Vec<_>>().join(",") };
+                        let m = if c.cmds.is_empty() { "-".to_string() } else { c.cmds.iter().map(|l| format!("{}.{}", l.id, l.access)).collect::<Vec<_>>().join(",") };
+                        format!("{}^{}^{}^{}", c.id, c.fm, a, m)
+                    })
+                    .collect::<Vec<_>>()
+                    .join("|")
+            };
+            format!("{}@{}@{}", e.id, dts, cls)
+        })
+        .collect::<Vec<_>>()
+        .join(";")
+}
+
+fn gen_case(r: &mut Rng, out: &mut Out, nx: usize) -> Vec<String> {
+    let mut ops: Vec<String> = Vec::new();
+    // access control: 1-2 fabrics, a few entries of decreasing generosity
+    let nf = r.range(1, 2);
+    for _ in 0..nf {
+        ops.push("fab".into());
+    }
+    let privs = [1u8, 3, 7, 15, 16];
+    for f in 1..=nf {
+        if r.chance(1, 2) {
+            // one generous entry so that permitted elements are common
+            ops.push(format!("acl {} {} c {} null", f, r.pick(&[15u8, 15, 7, 3]), r.pick(&["null", "1", "1,2"])));
+        }
+        let ne = r.range(0, 3);
+        for _ in 0..ne {
+            let mode = *r.pick(&["c", "c", "g"]);
+            let subj = match r.below(4) {
+                0 => "null".to_string(),
+                1 => "e".to_string(),
+                _ => if mode == "g" { r.pick(&GROUP_IDS).to_string() } else { r.pick(&[1u64, 2, 112233]).to_string() },
+            };
+            let tgt = match r.below(5) {
+                0 => "null".to_string(),
+                1 => "e".to_string(),
+                _ => {
+                    let n = r.range(1, 3);
+                    (0..n)
+                        .map(|_| {
+                            let shape = r.range(1, 7);
+                            format!(
+                                "{}/{}/{}",
+                                if shape & 1 != 0 { r.pick(&ENDPOINTS).to_string() } else { "-".into() },
+                                if shape & 2 != 0 { r.pick(&CLUSTERS).to_string() } else { "-".into() },
+                                if shape & 4 != 0 { r.pick(&DEV_TYPES).to_string() } else { "-".into() }
+                            )
+                        })
+                        .collect::<Vec<_>>()
+                        .join(";")
+                }
+            };
+            ops.push(format!("acl {} {} {} {} {}", f, r.pick(&privs), mode, subj, tgt));
+        }
+        if r.chance(1, 2) {
+            let ng = r.range(1, 4);
+            for _ in 0..ng {
+                let gid = *r.pick(&GROUP_IDS);
+                ops.push(format!("grp {} {} {}", f, gid, r.pick(&ENDPOINTS)));
+                if r.chance(1, 3) {
+                    ops.push(format!("gaux {} {} 1", f, gid));
+                }
+            }
+        }
+    }
+    let wf = !r.chance(1, 8);
+    out.stat(if wf { "node_wellformed" } else { "node_with_duplicate_ids" }, 1);
+    let eps = gen_node(r, out, wf);
+    ops.push(format!("node {}", node_spec(&eps)));
+    for _ in 0..nx {
+        let kind = *r.pick(&["r", "r", "w", "w", "i", "i"]);
+        let (fab, mode, id): (u64, &str, u64) = match r.below(12) {
+            0 => (0, "p", 1),
+            1 => (r.range(1, nf), "p", 1),
+            2 => (0, "c", 1),
+            3 => (3, "c", 1),
+            4..=5 => (r.range(1, nf), "g", *r.pick(&GROUP_IDS)),
+            _ => (r.range(1, nf), "c", *r.pick(&[1u64, 1, 2, 112233])),
+        };
+        let aux = if r.chance(1, 6) { 1 } else { 0 };
+        let timed = if r.chance(1, 2) { 1 } else { 0 };
+        let np = *r.pick(&[1usize, 1, 2, 3, 4]);
+        let mut paths: Vec<String> = Vec::new();
+        for _ in 0..np {
+            if !paths.is_empty() && r.chance(1, 5) {
+                // repeat an earlier path (exercises the last-authorised cache)
+                let p = r.pick(&paths).clone();
+                paths.push(p);
+                out.stat("path_repeat", 1);
+                continue;
+            }
+            // aim at an existing element, then wildcard / perturb components
+            let mut ep: Option<u64> = Some(*r.pick(&ENDPOINTS) as u64);
+            let mut cl: Option<u64> = Some(*r.pick(&CLUSTERS) as u64);
+            let mut lf: Option<u64> = Some(r.below(5));
+            if !eps.is_empty() && r.chance(4, 5) {
+                let e = &eps[r.below(eps.len() as u64) as usize];
+                ep = Some(e.id as u64);
+                if !e.clusters.is_empty() && r.chance(4, 5) {
+                    let c = &e.clusters[r.below(e.clusters.len() as u64) as usize];
+                    cl = Some(c.id as u64);
+                    let leaves = if kind == "i" { &c.cmds } else { &c.attrs };
+                    if !leaves.is_empty() && r.chance(4, 5) {
+                        lf = Some(leaves[r.below(leaves.len() as u64) as usize].id as u64);
+                    }
+                }
+            }
+            let shape = if kind == "r" {
+                match r.below(10) {
+                    0..=4 => 0, // concrete
+                    5 => 1,     // endpoint wildcard
+                    6 => 2,     // cluster wildcard
+                    7 => 4,     // leaf wildcard
+                    8 => 7,     // everything
+                    _ => r.below(8),
+                }
+            } else {
+                // writes / invokes support the endpoint wildcard only
+                match r.below(10) {
+                    0..=5 => 0,
+                    6..=8 => 1,
+                    _ => r.below(8),
+                }
+            };
+            if shape & 1 != 0 { ep = None; }
+            if shape & 2 != 0 { cl = None; }
+            if shape & 4 != 0 { lf = None; }
+            out.stat(&format!("path_{}_{}{}{}", kind, if ep.is_some() { "E" } else { "*" }, if cl.is_some() { "C" } else { "*" }, if lf.is_some() { "L" } else { "*" }), 1);
+            paths.push(format!("{}/{}/{}", fmt_o(ep), fmt_o(cl), fmt_o(lf)));
+        }
+        // caller's filter (reads): exclude a few existing triples
+        let mut excl: Vec<String> = Vec::new();
+        if kind == "r" && r.chance(1, 4) {
+            for e in &eps {
+                for c in &e.clusters {
+                    for l in &c.attrs {
+                        if r.chance(1, 4) {
+                            excl.push(format!("{}.{}.{}", e.id, c.id, l.id));
+                        }
+                    }
+                }
+            }
+        }
+        ops.push(format!(
+            "x {} {} {} {} {} - {} {} {}",
+            kind,
+            fab,
+            mode,
+            aux,
+            id,
+            timed,
+            if excl.is_empty() { "-".to_string() } else { excl.join(",") },
+            paths.join(";")
+        ));
+    }
+    ops
+}
+
+pub fn gen(a: &Args) -> String {
+    let seed = a.seed;
+    let thorough = a.thorough;
+    c05::with_matter(move |matter| {
+        let mut r = Rng::new(seed);
+        let mut out = Out::default();
+        out.buf.push_str("#rule one case = an access-control configuration (fabrics, entries, group tables, built through the real API) + generated node metadata (0..4 endpoints x 0..3 clusters x 0..4 attributes / 0..3 commands with declared and random access bits, timed-only / fabric-scoped marks, partially disabled by the feature map; 1 in 8 nodes has duplicate ids) + requests run through the real expand_read / expand_write / expand_invoke with real request TLVs: 1..4 paths (concrete, each wildcard shape, absent ids, repeats), requester in {PASE with/without fabric, CASE, Group, missing fabric}, timed flag, read filter; non-trivial = the case produced both items and statuses\n");
+        let n_cases: u64 = if thorough { 100000 } else { 10000 };
+        for id in 1..=n_cases {
+            let mut cr = r.fork();
+            let nx = if thorough { cr.range(4, 24) } else { cr.range(4, 14) } as usize;
+            let ops = gen_case(&mut cr, &mut out, nx);
+            run_case(matter, &mut out, &Case { id, kind: "expand".into(), ops });
+        }
+        out.finish()
+    })
+}
+
+pub fn replay(a: &Args) -> String {
+    let text = std::fs::read_to_string(a.input.as_ref().expect("--in")).expect("read input");
+    c05::with_matter(move |matter| {
+        let mut out = Out::default();
+        for c in parse_cases(&text) {
+            run_case(matter, &mut out, &c);
+        }
+        out.finish()
+    })
 }
